@@ -101,12 +101,22 @@ func (s *PollingFollowReader) Read(buf []byte) (int, error) {
 				}
 			}
 		} else { // No re-open, if the file's missing, that's EOF
-			_, err := os.Stat(s.filename)
-			if err != nil {
+			st, err := os.Stat(s.filename)
+			if err != nil || s.replaced(st) {
 				s.Close()
 				return 0, io.EOF
 			}
 		}
 
 	}
+}
+
+// replaced checks if the path now names a different file than the one being
+// read (eg. it was removed and re-created between two polls)
+func (s *PollingFollowReader) replaced(st os.FileInfo) bool {
+	if s.f == nil {
+		return false
+	}
+	cur, err := s.f.Stat()
+	return err == nil && !os.SameFile(cur, st)
 }
